@@ -103,6 +103,17 @@ js::Value Op::to_json() const
                 arr.push(e);
             }
             s.set("schedule", arr);
+            if (!schedule2.empty())
+            {
+                Value arr2 = Value::Arr();
+                for (auto &sw : schedule2)
+                {
+                    Value e = Value::Arr();
+                    e.push(Value::I(sw.region)).push(Value::I(sw.member)).push(Value::I(sw.at)).push(Value::I(sw.next));
+                    arr2.push(e);
+                }
+                s.set("schedule2", arr2);
+            }
         }
         v.set("sim", s);
     }
@@ -165,6 +176,10 @@ Op Op::from_json(const js::Value &v)
             for (auto &e : arr->a)
                 if (e.a.size() == 4)
                     o.schedule.push_back(sim::Switch{(int32_t)e.a[0].asi(), (int32_t)e.a[1].asi(), e.a[2].asi(), (int32_t)e.a[3].asi()});
+        if (const js::Value *arr = s->find("schedule2"))
+            for (auto &e : arr->a)
+                if (e.a.size() == 4)
+                    o.schedule2.push_back(sim::Switch{(int32_t)e.a[0].asi(), (int32_t)e.a[1].asi(), e.a[2].asi(), (int32_t)e.a[3].asi()});
     }
     return o;
 }
@@ -416,6 +431,11 @@ struct Gen
         o.input = pick_input();
         o.input_seed = r.next();
         sim_params(o, (kind == K_EXTEND ? o.n_ext : o.n) * std::max<uint64_t>(o.ncols, 1));
+        if (!fault_free && kind != K_ROUNDTRIP && o.n > 0 && o.ncols > 0 && (kind == K_EXTEND ? o.n_ext : o.n) * o.ncols <= 8192 && r.chance(1, 10))
+        {
+            static const int ht[] = {2, 2, 3, 4};
+            o.host_team = r.pick(ht); // also called by every member of an application parallel region, each on its own object
+        }
     }
     void gen_merkle(Op &o, bool ambient_bias)
     {
